@@ -5,6 +5,7 @@ package actor
 import (
 	"context"
 	"sync"
+	"sync/atomic"
 
 	"github.com/tochemey/goakt/v4/internal/address"
 	"github.com/tochemey/goakt/v4/log"
@@ -13,13 +14,16 @@ import (
 func init() {
 	vRegister("vC11_sameName", vC11_sameName)
 	vRegister("vC11_twoNames", vC11_twoNames)
+	vRegister("vC11_spawnAndFunc", vC11_spawnAndFunc)
+	vRegister("vC11_winnerCancelled", vC11_winnerCancelled)
 }
 
 // ---- ghost actor tree (name -> node), substituted for the tree operations the spawn path uses
 var vC11_mu sync.Mutex
 var vC11_nodes map[string]*pidNode
 var vC11_names map[*PID]string
-var vC11_created int
+var vC11_created int // instances started (initialisation succeeded) and never stopped
+var vC11_aborted int // instance initialisations aborted by the caller's context
 
 func vC11_nodeByName(t *tree, name string) (*pidNode, bool) {
 	vC11_mu.Lock()
@@ -50,8 +54,16 @@ func vC11_ref(x *actorSystem, name string) *address.Address {
 	return address.NewReference(name, "sys", "host", 9000)
 }
 
-// substituted for (*actorSystem).configPID: creates and starts the actor instance
+// substituted for (*actorSystem).configPID: creates and starts the actor instance. The initialisation (PreStart) runs
+// under the caller's context: when that context is cancelled by then, it is aborted with the context's error and
+// nothing is left running.
 func vC11_configPID(x *actorSystem, ctx context.Context, name string, actor Actor, opts ...SpawnOption) (*PID, error) {
+	if err := ctx.Err(); err != nil {
+		vC11_mu.Lock()
+		vC11_aborted++
+		vC11_mu.Unlock()
+		return nil, err
+	}
 	pid := &PID{}
 	pid.setState(runningState, true)
 	vC11_mu.Lock()
@@ -67,6 +79,7 @@ func vC11_newSystem() *actorSystem {
 	vC11_nodes = map[string]*pidNode{}
 	vC11_names = map[*PID]string{}
 	vC11_created = 0
+	vC11_aborted = 0
 	return x
 }
 
@@ -105,6 +118,71 @@ func vC11_twoNames() {
 		vCover("all-done")
 		vAssert(p1 != nil && p2 != nil && p1 != p2 && vC11_created == 2, "two names yield two distinct actors")
 		vAssert(x.actorsCounter.Load() == 2, "the actor count is two")
+	}
+	vCover("end")
+}
+
+// the same name spawned concurrently through two different entry points: Spawn and SpawnNamedFromFunc
+func vC11_spawnAndFunc() {
+	x := vC11_newSystem()
+	var p1, p2 *PID
+	var e1, e2 error
+	vGo("s1", func() { p1, e1 = x.Spawn(context.Background(), "a", vC11Actor{}) })
+	vGo("s2", func() {
+		p2, e2 = x.SpawnNamedFromFunc(context.Background(), "a", func(context.Context, any) error { return nil })
+	})
+	vRun()
+	vAssert(vC11_created <= 1, "at most one actor instance is created for one name")
+	if vAllDone() {
+		vCover("all-done")
+		vAssert(e1 == nil && e2 == nil, "both callers succeed")
+		vAssert(p1 == p2 && p1 != nil, "every successful caller receives the same PID")
+		vAssert(x.actorsCounter.Load() == 1, "the system's actor count equals the number of running user actors")
+	}
+	vCover("end")
+}
+
+// a cancellable context written in the harness (the executor's own context model never cancels)
+type vC11Ctx struct {
+	context.Context
+	done      chan struct{}
+	cancelled atomic.Bool
+}
+
+func (c *vC11Ctx) Done() <-chan struct{} { return c.done }
+func (c *vC11Ctx) Err() error {
+	if c.cancelled.Load() {
+		return context.Canceled
+	}
+	return nil
+}
+
+// three concurrent Spawn calls of one name; the context of the first caller is cancelled at an arbitrary moment, so
+// when it is the single-flight winner its spawn may abort in the initialisation and the coalesced waiters (live
+// contexts) inherit the cancellation and retry: the retries must again be serialised
+func vC11_winnerCancelled() {
+	x := vC11_newSystem()
+	ctx1 := &vC11Ctx{Context: context.Background(), done: make(chan struct{})}
+	var p1, p2, p3 *PID
+	var e1, e2, e3 error
+	vGo("s1", func() { p1, e1 = x.Spawn(ctx1, "a", vC11Actor{}) })
+	vGo("s2", func() { p2, e2 = x.Spawn(context.Background(), "a", vC11Actor{}) })
+	vGo("s3", func() { p3, e3 = x.Spawn(context.Background(), "a", vC11Actor{}) })
+	vGo("cancel", func() { ctx1.cancelled.Store(true); close(ctx1.done) })
+	vRun()
+	vAssert(vC11_created <= 1, "at most one actor instance is created for one name")
+	if vAllDone() {
+		vCover("all-done")
+		vAssert(e2 == nil && e3 == nil, "callers with a live context succeed")
+		vAssert(p2 == p3 && p2 != nil, "every successful caller receives the same PID")
+		vAssert(e1 != nil || p1 == p2, "every successful caller receives the same PID (cancelled caller)")
+		vAssert(x.actorsCounter.Load() == 1, "the system's actor count equals the number of running user actors")
+		if e1 != nil {
+			vCover("first-caller-fails")
+		}
+		if vC11_aborted == 1 {
+			vCover("winner-aborted-waiters-retry")
+		}
 	}
 	vCover("end")
 }
